@@ -177,5 +177,6 @@ class RefParty:
                {'type': codec.TSI, 'critical': False, 'selectors': tsi},
                {'type': codec.TSR, 'critical': False, 'selectors': tsr}]
         if transport:
-            pls.append({'type': codec.NOTIFY, 'critical': False, 'proto': 0, 'spi': b'', 'ntype': 16391, 'data': b''})
+            # (transport may be a Protocol ID: the field of a notification that relates to no existing SA is ignored on receipt, RFC 7296 3.10)
+            pls.append({'type': codec.NOTIFY, 'critical': False, 'proto': 0 if transport is True else int(transport), 'spi': b'', 'ntype': 16391, 'data': b''})
         return self.seal(35, 1, pls, response=False)
